@@ -140,7 +140,22 @@ fn gen_int(rng: &mut Rng) -> i128 {
 }
 
 fn gen_real(rng: &mut Rng, allow_nan: bool) -> f64 {
-    let r = match rng.below(16) {
+    let r = match rng.below(18) {
+        16 | 17 => {
+            // +-2^k at the edges of the integer types, and the doubles right next to them
+            let k = *rng.pick(&[23i32, 24, 31, 32, 52, 53, 54, 62, 63, 64, 65, 126, 127, 128, -1, -1022, 1023]);
+            let x = 2f64.powi(k);
+            let x = match rng.below(4) {
+                0 => f64::from_bits(x.to_bits() + 1),
+                1 => f64::from_bits(x.to_bits() - 1),
+                _ => x,
+            };
+            if rng.flip() {
+                -x
+            } else {
+                x
+            }
+        }
         0 => 0.0,
         1 => -0.0,
         2 => f64::from_bits(1),
@@ -391,7 +406,7 @@ fn expect(word: &str, ops: &[V]) -> Exp {
             (">int", I(a)) => Exp::Int(*a),
             (">int", R(x)) => {
                 // inside the i128 range: truncation toward zero
-                if x.is_finite() && x.abs() < 1.7e38 {
+                if *x >= -(2f64.powi(127)) && *x < 2f64.powi(127) {
                     let t = x.trunc();
                     // exact conversion of an integral double: via magnitude bits
                     let bits = t.abs().to_bits();
@@ -407,7 +422,7 @@ fn expect(word: &str, ops: &[V]) -> Exp {
                             (m as u128) >> (-sh)
                         }
                     };
-                    Exp::Int(if t < 0.0 { -(mag as i128) } else { mag as i128 })
+                    Exp::Int(if t < 0.0 { (mag as i128).wrapping_neg() } else { mag as i128 })
                 } else {
                     Exp::Open
                 }
@@ -431,7 +446,7 @@ fn real_same(a: f64, b: f64) -> bool {
 }
 
 impl C09 {
-    fn one(&mut self, word: &str, ops: &[V], idx: u64, obs: &mut Obs, via_literals: bool) {
+    fn one(&mut self, word: &str, ops: &[V], idx: u64, obs: &mut Obs, via_literals: bool, tagged: u8) {
         let exp = expect(word, ops);
         // a sentinel below the operands must survive untouched
         let sentinel = Cell::from("sentinel");
@@ -448,9 +463,10 @@ impl C09 {
             let xs = &mut self.xs;
             catch(|| xs.eval(&s))
         } else {
-            src = format!("{:?} {}", ops, word);
+            src = format!("{:?} {}{}", ops, word, if tagged != 0 { format!(" (operands tagged: mask {})", tagged) } else { String::new() });
             let xs = &mut self.xs;
-            let ops2: Vec<Cell> = ops.iter().map(|o| o.cell()).collect();
+            // a number that carries tags (every number read from binary input does) is still that number
+            let ops2: Vec<Cell> = ops.iter().enumerate().map(|(i, o)| if tagged & (1 << i) != 0 { o.cell().with_tags(Xmap::new().insert(Cell::from("k"), Cell::Int(1))) } else { o.cell() }).collect();
             let sent = sentinel.clone();
             catch(|| {
                 xs.push_data(sent)?;
@@ -476,9 +492,14 @@ impl C09 {
                     bad = Some(("stack".into(), format!("depth {} below={:?}", depth, below.map(|c| show(&c)))));
                 } else {
                     let top = top.unwrap();
-                    if top.tags().is_some() {
+                    if top.tags().is_some() && tagged == 0 {
                         bad = Some(("tagged-result".into(), show(&top)));
                     }
+                    if tagged != 0 {
+                        obs.count("tuples_with_tagged_operand");
+                    }
+                    // (whether a result may keep an operand's tags is C13's question)
+                    let top = top.value().clone();
                     match (&exp, &top) {
                         (Exp::Int(e), Cell::Int(g)) if e == g => outcome = "exact",
                         (Exp::Wrapped(e), Cell::Int(g)) if e == g => outcome = "wrapped",
@@ -651,7 +672,7 @@ impl Monitor for C09 {
             }
             if word == ">int" {
                 if let V::R(x) = ops[0] {
-                    if !(x.is_finite() && x.abs() < 1.7e38) {
+                    if !(x >= -(2f64.powi(127)) && x < 2f64.powi(127)) {
                         ops[0] = V::R(gen_real(&mut rng, false).clamp(-1.0e38, 1.0e38));
                     }
                 }
@@ -660,7 +681,8 @@ impl Monitor for C09 {
                 obs.count("conversions");
             }
             let via_literals = k % 8 == 7 && ops.iter().all(|o| matches!(o, V::I(_)));
-            self.one(word, &ops, idx, obs, via_literals);
+            let tagged = if !via_literals && rng.chance(1, 8) { 1 + rng.below(3) as u8 } else { 0 };
+            self.one(word, &ops, idx, obs, via_literals, tagged);
             if idx < 28 && k == 0 {
                 obs.sample(J::obj(vec![("word", J::s(word)), ("operands", J::s(format!("{:?}", ops)))]));
             }
